@@ -97,6 +97,9 @@ func jsonPkg(p lPkg) map[string]any {
 	if p.T.Fp {
 		t["fingerprint"] = map[string]string{"k": "v"}
 	}
+	if p.T.Platforms == "empty" {
+		t["platforms"] = []string{}
+	}
 	if p.T.Platforms == "linux" {
 		t["platforms"] = []string{"linux/amd64"}
 	}
@@ -152,6 +155,9 @@ func renderYAML(p lPkg) string {
 	if p.T.Fp {
 		b.WriteString("    fingerprint:\n      k: v\n")
 	}
+	if p.T.Platforms == "empty" {
+		b.WriteString("    platforms: []\n")
+	}
 	if p.T.Platforms == "linux" {
 		b.WriteString("    platforms: [linux/amd64]\n")
 	}
@@ -188,6 +194,9 @@ func renderStar(p lPkg) string {
 	if p.T.Fp {
 		args = append(args, `fingerprint = {"k": "v"}`)
 	}
+	if p.T.Platforms == "empty" {
+		args = append(args, `platforms = []`)
+	}
 	if p.T.Platforms == "linux" {
 		args = append(args, `platforms = ["linux/amd64"]`)
 	}
@@ -223,6 +232,9 @@ func renderMakeBlock(p lPkg) string {
 	if p.T.Fp {
 		b.WriteString("# fingerprint:\n#   k: v\n")
 	}
+	if p.T.Platforms == "empty" {
+		b.WriteString("# platforms: []\n")
+	}
 	if p.T.Platforms == "linux" {
 		blockList("platforms", []string{"linux/amd64"})
 	}
@@ -253,6 +265,9 @@ func renderMake(p lPkg) string {
 	}
 	if p.T.Fp {
 		b.WriteString("# fingerprint: {k: v}\n")
+	}
+	if p.T.Platforms == "empty" {
+		b.WriteString("# platforms: []\n")
 	}
 	if p.T.Platforms == "linux" {
 		b.WriteString("# platforms: [linux/amd64]\n")
